@@ -182,7 +182,7 @@ CHECKS = {
         note="the scheduler is sequentially consistent and switches only at Lock/Wait/thread end (sound for data-race-free code; races are the -race pass's job); file-backed pipes (4 MiB minimum) get a reduced set in thorough only",
         rule="execution = one schedule of one scenario (or one sequential word); states = distinct observable histories per scenario plus distinct sequential words; transitions = scheduling steps / operations; non-trivial = scenarios (each has conflicting operations by construction) and sequential words",
         parts=[dict(pkg="./pkg/libs/io/pipe", harness=["pipe"], test="^TestVerif_C09$", race_test="^TestVerif_C09Race$", race=True, race_shards=4, shards=16,
-                    gomaxprocs=1, budget=dict(quick=60, thorough=900))],
+                    gomaxprocs=1, budget=dict(quick=150, thorough=900))],
     ),
     "C18": dict(
         level="model_checking",
